@@ -20,6 +20,7 @@ package main
 // Every op prints  <status> <code> [13 bytes for 13/14/15 | n uids for 25]  followed by the observation
 //   Number Loaded <#heads != -1> nb (h k slot*k end)*nb  <MAX_USERS*13 id bytes, or 13 bytes per watched slot after op 32>  nl uid*nl
 // where the chains are walked in the attached memory (end: -1 proper, -2 link out of range, -3 longer than MAX_USERS).
+//   11|op|op|...   the same as 1 for the production configuration: the -tags docker build runs it itself, the default build passes it to build/implrun_docker
 //   2|id   cmsys.StringHashWithHashBits      3   constants of the compiled program
 //   4      1 when this (the first) process created the segment (cache.Shm.IsNew), else 0
 // implrun C04ATTACH is the second process: it attaches to the key in VERIF_C04_KEY and answers "1|ids..." with the uids.
@@ -376,6 +377,33 @@ func c04Step(st *c04State, g []string) (res []string) {
 	panic("badcase:op")
 }
 
+// case 11 on the default build: "11|op|op.." is a history for the production configuration (-tags docker: MAX_USERS 2 000 000). The driver built with
+// those tags (implrun_docker next to this executable; checks/C04.py builds both) runs it and its answer is passed on, so that a replay file of such a
+// history can be given to either driver.
+func c04Relay(args [][]string) []string {
+	groups := []string{}
+	for _, g := range args {
+		groups = append(groups, strings.Join(g, " "))
+	}
+	exe := filepath.Join(filepath.Dir(os.Args[0]), "implrun_docker")
+	if _, err := os.Stat(exe); err != nil {
+		return []string{"9"}
+	}
+	cmd := exec.Command(exe, "C04", "-deadline", "120000")
+	cmd.Stdin = strings.NewReader(strings.Join(groups, "|") + "\n")
+	var so, se bytes.Buffer
+	cmd.Stdout, cmd.Stderr = &so, &se
+	err := cmd.Run()
+	out := strings.Fields(so.String())
+	if len(out) == 0 {
+		if os.Getenv("VERIF_SHOW_PANIC") != "" {
+			fmt.Fprintln(os.Stderr, "relay:", err, se.String())
+		}
+		return []string{"9"}
+	}
+	return out
+}
+
 // newBBSEnv (bbsenv.go) without its cache.LoadUHash(): the set-up runs outside the driver's deadline, and the first load of the
 // zeroed segment by its creator is one of the things this property is about - it has to happen inside a case.
 func c04NewEnv(fixture string) *bbsEnv {
@@ -412,7 +440,14 @@ func init() {
 		setup:    func() { env = c04NewEnv("ptt") },
 		teardown: func() { env.close() },
 		run: func(args [][]string) []string {
-			switch ai(args[0][0]) {
+			top := ai(args[0][0])
+			if top == 11 && int64(ptttype.MAX_USERS) < 100000 {
+				return c04Relay(args) // a history of the production configuration given to the default build: the sibling driver built with -tags docker runs it
+			}
+			if top == 11 {
+				top = 1
+			}
+			switch top {
 			case 1:
 				cache.Shm.Reset()
 				c04WritePasswd(nil)
